@@ -413,6 +413,30 @@ def compare(a, b):
     return rel, bad
 
 
+def fresh_also_raises(case, k):
+    """op k raised on the modified simulation: does it also raise on a simulation freshly built in
+    the configuration reached after ops[:k]?  (then the sequence itself is invalid -- e.g. a Newton
+    divergence -- and says nothing about caches).  None when it cannot be decided."""
+    op = case["ops"][k]
+    if "i" not in op:
+        return None
+    try:
+        w = World(case["type"], case.get("opts", {}))
+        with contextlib.redirect_stdout(io.StringIO()):
+            for o in case["ops"][:k]:
+                w.step(o)
+            frec = w.fresh(w.sims[op["i"]])
+            w.sims[op["i"]] = frec
+    except Exception:  # noqa
+        return None
+    try:
+        with contextlib.redirect_stdout(io.StringIO()):
+            w.step(op)
+    except Exception as ex:  # noqa
+        return "%s: %s" % (type(ex).__name__, str(ex)[:120])
+    return False
+
+
 def run_case(case):
     res = {"flags": [], "error": None, "sims": []}
     try:
@@ -425,7 +449,8 @@ def run_case(case):
             with contextlib.redirect_stdout(io.StringIO()):
                 w.step(op)
         except Exception as ex:  # noqa
-            res["error"] = {"at": k, "what": "%s: %s" % (type(ex).__name__, str(ex)[:200]), "tb": traceback.format_exc()[-1500:]}
+            res["error"] = {"at": k, "what": "%s: %s" % (type(ex).__name__, str(ex)[:200]), "tb": traceback.format_exc()[-1500:],
+                            "fresh_also_raises": fresh_also_raises(case, k)}
             return res
         res["flags"].append([r.flags() for r in w.sims])
     for rec in w.sims:
